@@ -1,8 +1,60 @@
 (* C01 - every row Wheatley rings is a complete row.  ONLY statements closed by `exact`. *)
-From Wh Require Import Prelude Permute PermuteP.
+From Wh Require Import Prelude Permute PN Gens PermuteP GensP.
 From Coq Require Import Permutation.
 
+(* one change, ALL stages, place lists (sorted or not, in range or not) and rows *)
 Theorem C01_permute_ok : forall stage pl r,
   stage <= length r ->
   exists r', permute stage pl r = Ok r' /\ Permutation r r' /\ length r' = length r.
 Proof. exact permute_ok. Qed.
+
+(* the only way permute can fail is IndexError on a row shorter than the stage *)
+Theorem C01_permute_error_only_short_row : forall stage pl r e,
+  permute stage pl r = Err e -> e = EIndex /\ length r < stage.
+Proof. exact permute_never_other_error. Qed.
+
+(* opening rows: no bell twice, every tower bell present *)
+Theorem C01_starting_row_ok : forall n custom r,
+  generate_starting_row n custom = Ok r ->
+  NoDup r /\ (forall b, 1 <= b <= n -> In b r) /\ n <= length r.
+Proof. exact starting_row_ok. Qed.
+
+(* every row returned along EVERY history of Bob / Single / Reset / Next operations, by a
+   place-notation, plain-hunt or Dixonoid generator, is a permutation of the start row *)
+Theorem C01_gen_rows_perm : forall ops g,
+  permuting g -> gen_inv g ->
+  Forall (fun rc => Permutation (fst rc) (g_start_row g)) (fst (gen_run g ops)).
+Proof. exact gen_run_rows_perm. Qed.
+
+(* the constructors establish the hypotheses of the previous theorem *)
+Theorem C01_pn_constructor : forall stage m b s si custom g,
+  mk_pn_gen stage m b s si custom = Ok g -> gen_inv g /\ permuting g.
+Proof. exact mk_pn_gen_inv. Qed.
+Theorem C01_plain_hunt_constructor : forall stage custom g,
+  mk_plain_hunt stage custom = Ok g -> gen_inv g /\ permuting g /\ total_kind g.
+Proof. exact mk_plain_hunt_inv. Qed.
+Theorem C01_dixon_constructor : forall stage p b s custom g,
+  mk_dixon stage p b s custom = Ok g -> gen_inv g /\ permuting g.
+Proof. exact mk_dixon_inv. Qed.
+
+(* and generation never fails: a place-notation generator (non-empty notation) or plain hunt *)
+Theorem C01_gen_next_total : forall g st,
+  total_kind g -> gen_inv g -> exists y, gen_next g st = Ok y.
+Proof. exact gen_next_total. Qed.
+
+(* non-vacuity: the hypotheses hold of Grandsire Triples, and a history with a Single produces rows *)
+Example C01_nonvacuous :
+  exists g, mk_grandsire 7 None = Ok g /\ gen_inv g /\ permuting g.
+Proof.
+  destruct (mk_grandsire 7 None) as [g|e] eqn:E; [|vm_compute in E; discriminate].
+  exists g. split; [reflexivity|].
+  unfold mk_grandsire in E.
+  destruct (grandsire_notation 7) as [nt|]; [|discriminate]. cbn [bind Nat.eqb] in E.
+  exact (mk_pn_gen_inv _ _ _ _ _ _ _ E).
+Qed.
+Example C01_nonvacuous_rows :
+  match mk_grandsire 7 None with
+  | Ok g => length (fst (gen_run g [OpNext true; OpSingle; OpNext false; OpNext true])) = 3
+  | Err _ => False
+  end.
+Proof. vm_compute. reflexivity. Qed.
